@@ -47,15 +47,26 @@ CAT_ATOMS = ["f", "g", "h", "cu", "co", "C(f)", "C(k)", "T(f, 'b')", "T(g, ref='
              "S(f, 'a')", "C(f, Sum)", "C(g, Treatment('v'))", "C(f, levels=lv_f)", "C(co)",
              "C(h, Treatment)"]
 NAMES = {"lv_f": ["c", "a", "b"]}
+# atoms outside the exact-rational model (floating point / scipy): used for the properties whose
+# specification can be evaluated on the implementation's output alone
+EXTRA_NUM = ["scale(x)", "bs(z, df=4)", "poly(x, 2)", "np.exp(z / 4)", "standardize(z)",
+             "bs(x, df=3, degree=2)", "poly(z, 3, raw=True)"]
 
 
-def gen_term(rng, max_arity=3):
+def namespace():
+    return dict(NAMES, np=np)
+
+
+def gen_term(rng, max_arity=3, extra=False):
     k = rng.choice([1, 1, 1, 2, 2, 3][:max(1, max_arity * 2)])
     atoms = []
     while len(atoms) < k:
         a = rng.choice(NUM_ATOMS if rng.random() < 0.4 else CAT_ATOMS)
+        if extra and rng.random() < 0.25:
+            a = rng.choice(EXTRA_NUM)
         base = a.replace("(", " ").replace(")", " ").replace(",", " ").split()
-        key = base[1] if len(base) > 1 and base[0] in ("C", "T", "S", "center", "I") else base[0]
+        key = base[1] if len(base) > 1 and base[0] in (
+            "C", "T", "S", "center", "I", "scale", "bs", "poly", "np.exp", "standardize") else base[0]
         if all(key not in b for b in atoms):
             atoms.append(a)
     return ":".join(atoms)
@@ -70,11 +81,11 @@ def gen_group(rng):
     return f"({eff} | {grp})"
 
 
-def gen_formula(rng, response=None, allow_group=True, max_terms=4):
+def gen_formula(rng, response=None, allow_group=True, max_terms=4, extra=False):
     nt = rng.randrange(1, max_terms + 1)
     terms = []
     for _ in range(nt):
-        t = gen_term(rng)
+        t = gen_term(rng, extra=extra)
         if t not in terms:
             terms.append(t)
     if allow_group and rng.random() < 0.45:
@@ -163,7 +174,9 @@ def observe(formula, df, names, news=(), na_action="drop"):
     try:
         with warnings.catch_warnings():
             warnings.simplefilter("ignore")
-            dm = formulae.design_matrices(formula, df, na_action=na_action, extra_namespace=dict(names))
+            ns = dict(names)
+            ns.setdefault("np", np)
+            dm = formulae.design_matrices(formula, df, na_action=na_action, extra_namespace=ns)
     except Exception as e:  # noqa
         return {"err": type(e).__name__, "msg": str(e)[:120]}, None
     obs = {"n": int(len(df))}
